@@ -338,7 +338,7 @@ def reach_loose(c1: str, attr: str) -> bool:
     pre: _col_ok(c1) and attr in ATTRS and attr != "" and (LINE_A < 0 or attr == ATTRS[LINE_A])
     post: not _
     """
-    return _check_line(c1, "src", "t", ".", "+", "0", "1", "25", hx.pick(attr, ATTRS), "", "", 0) is None and c1 > "z"
+    return _check_line(c1, "src", "t", ".", "+", "0", "1", "25", hx.pick(attr, ATTRS), "", "", 0) is None
 
 
 def diag_loose(c1, attr):
